@@ -18,6 +18,8 @@ inductive Fp where
 
 inductive Obs where
   | panic
+  /-- `encode_to` returned `Err` (the encoder refused the message) -/
+  | err
   | obs (n : Nat) (stream : Bytes) (dec : List DRes) (fp : Fp)
   deriving DecidableEq, Repr, Inhabited
 
@@ -172,6 +174,9 @@ def fixedPoint (p : Profile) (loc rem : List Cap) : List DRes → List Entry →
   | .msg q :: rest, es =>
       let n := q.nEntries
       let sl := if n ≤ es.length then es.take n else []
+      -- a decoded UPDATE that carries no route yields no message: nothing to re-encode
+      if (toMsgs q sl).isEmpty then fixedPoint p loc rem rest (es.drop n)
+      else
       match reTrip p loc rem (toMsgs q sl) with
       | .panic => .panic
       | .ok d2 =>
